@@ -80,6 +80,10 @@ structure StackHead (g g9 : Graph) (W W9 : World) (head : Trunk) (ff lf : WRef) 
   fresh : ∀ n', g.next ≤ n' → W9.live n' → ∀ gid a i o, g9.kindOf n' = some (.worker gid a i o) → g.next ≤ gid
   opens : ∀ n', g.next ≤ n' → W9.live n' → g9.isOpen n' →
     n' = head.apply.head ∨ n' = head.train.head ∨ n' = head.label.head
+  /-- nothing is subscribed to the apply head yet -/
+  reach : ∀ m, Reach g9 head.apply.head m → m = head.apply.head
+  ffne : ff.uid ≠ head.apply.head ∧ lf.uid ≠ head.apply.head
+  closed : ∀ s k q, g.next ≤ s → g9.inputOf s k = some q → g.next ≤ q.node
 
 theorem stack_head {g : Graph} {W : World} (hi : Inv g W) (hw : Wired g) (xa xt xl : Val) (r : Nat) (hr : r ≤ g.next)
     (splitter n : Nat) :
@@ -232,9 +236,51 @@ theorem stack_head {g : Graph} {W : World} (hi : Inv g W) (hw : Wired g) (xa xt 
     intro i
     obtain ⟨_, b2, _⟩ := old9 ⟨h, i⟩ hh.live
     rw [b2]; exact hh.val i
+  -- the subscriptions of the head: the two forks of the splitter only
+  have in9 : ∀ s k q, g.next ≤ s → g9.inputOf s k = some q →
+      (s = g3.next + 2 ∧ q = head.train.publisher) ∨ (s = g3.next + 3 ∧ q = head.label.publisher) := by
+    intro s k q hs hq
+    have hq9 : (g8.pushEdge ⟨g3.next + 3, 0, head.label.publisher⟩).inputOf s k = some q := hq
+    rcases inputOf_pushEdge_some hq9 with hq8 | ⟨e1, _, e3⟩
+    · have hq7 : (g6.pushEdge ⟨g3.next + 2, 0, head.train.publisher⟩).inputOf s k = some q := hq8
+      rcases inputOf_pushEdge_some hq7 with hq6 | ⟨e1, _, e3⟩
+      · exfalso
+        have hq3 : g3.inputOf s k = some q := hq6
+        rw [eg] at hq3
+        have hq0 : g.inputOf s k = some q := hq3
+        rw [hi.bounded.inputOf_none hs k] at hq0; cases hq0
+      · exact Or.inl ⟨e1.symm, e3.symm⟩
+    · exact Or.inr ⟨e1.symm, e3.symm⟩
+  have hah : head.apply.head < g3.next := hlt3 _ h0.ha.live
+  have hfg9 : Frame g g9 := h0.frame.trans hf9
+  have reach9 : ∀ m, Reach g9 head.apply.head m → m = head.apply.head := by
+    intro m hre
+    induction hre with
+    | refl => rfl
+    | step hp he ih =>
+      rename_i p s' k i
+      exfalso
+      by_cases hs : s' < g.next
+      · rw [hfg9.input s' k hs] at he
+        have := hw.pub_lt he
+        have := h0.ha.ge
+        simp at this; omega
+      · rcases in9 s' k _ (by omega) he with ⟨_, e⟩ | ⟨_, e⟩
+        · have e' : p = head.train.tail := congrArg PubRef.node e
+          rw [ih, htails.2.1] at e'
+          exact h0.distinct.1 e'
+        · have e' : p = head.label.tail := congrArg PubRef.node e
+          rw [ih, htails.2.2] at e'
+          exact h0.distinct.2.1 e'
   refine ⟨head, g9, W9, _, _, hrun, hiL, hw9, h0.frame.trans hf9, hag, hn9, head9 _ _ h0.ha, head9 _ _ h0.ht, head9 _ _ h0.hl,
     h0.distinct, htails, ⟨by show g.next ≤ g3.next + 2; omega, by show g3.next + 2 < g9.next; omega⟩,
-    ⟨by show g.next ≤ g3.next + 3; omega, by show g3.next + 3 < g9.next; omega⟩, ?_, ?_, ?_, ?_, ?_⟩
+    ⟨by show g.next ≤ g3.next + 3; omega, by show g3.next + 3 < g9.next; omega⟩, ?_, ?_, ?_, ?_, ?_, reach9,
+    ⟨by show g3.next + 2 ≠ head.apply.head; omega, by show g3.next + 3 ≠ head.apply.head; omega⟩, ?_⟩
+  rotate_right
+  · intro s k q hs hq
+    rcases in9 s k q hs hq with ⟨_, e⟩ | ⟨_, e⟩
+    · rw [e]; show g.next ≤ head.train.tail; exact h0.tails_ge.2.1
+    · rw [e]; show g.next ≤ head.label.tail; exact h0.tails_ge.2.2
   · refine ⟨?_, ?_, ?_⟩
     · obtain ⟨a1, a2, a3⟩ := old9 ⟨head.apply.tail, 0⟩ h0.ta.1
       refine ⟨a1, ?_, ?_⟩
